@@ -40,6 +40,9 @@ pub struct HookG {
 	pub use_stdout: bool,
 	pub use_stderr: bool,
 	pub sleep_ms: u64,
+	/// none | touch (a file-pre-create hook that creates the file) | remove (a file-pre-edit hook that moves it away)
+	#[serde(default)]
+	pub side_effect: String,
 }
 
 #[derive(Clone, Debug, Serialize, Deserialize)]
@@ -69,12 +72,19 @@ fn hook_strategy() -> impl Strategy<Value = HookG> {
 		any::<bool>(),
 		prop_oneof![3 => Just(false), 1 => Just(true)],
 		prop_oneof![3 => Just(0u64), 1 => 1u64..8],
+		prop_oneof![8 => Just("none"), 1 => Just("touch"), 1 => Just("remove")],
 	)
-		.prop_map(|(t, allow_failure, behaviour, stdin_kind, use_stdout, use_stderr, sleep_ms)| {
+		.prop_map(|(t, allow_failure, behaviour, stdin_kind, use_stdout, use_stderr, sleep_ms, side_effect)| {
 			let mut types: Vec<String> = t.iter().map(|i| TYPES[*i].to_string()).collect();
 			types.sort();
 			types.dedup();
-			HookG { name: String::new(), types, allow_failure, behaviour: behaviour.to_string(), stdin_kind, use_stdout, use_stderr, sleep_ms }
+			// side-effect hooks are single-typed preparation hooks
+			match side_effect {
+				"touch" => types = vec!["file-pre-create".to_string()],
+				"remove" => types = vec!["file-pre-edit".to_string()],
+				_ => {}
+			}
+			HookG { name: String::new(), types, allow_failure, behaviour: behaviour.to_string(), stdin_kind, use_stdout, use_stderr, sleep_ms, side_effect: side_effect.to_string() }
 		})
 }
 
@@ -170,16 +180,27 @@ struct ModelState {
 	crt_file: bool,
 }
 
-/// file write: pre hooks, write, post hooks. Returns (ok, written)
+/// file write: pre hooks, write, post hooks. Returns (ok, the file exists afterwards)
 #[allow(clippy::too_many_arguments)]
 fn file_write(list: &[HookG], owner: &str, exists: bool, dir: &str, name: &str, env: &BTreeMap<String, Option<String>>, trace: &mut Vec<Inv>) -> (bool, bool) {
 	let mut vars = BTreeMap::new();
 	vars.insert("file_name".to_string(), name.to_string());
 	vars.insert("file_directory".to_string(), dir.to_string());
 	vars.insert("file_path".to_string(), format!("{dir}/{name}"));
+	// the kind of write (creation or edition) is decided once, before any hook runs
 	let (pre, post) = if exists { ("file-pre-edit", "file-post-edit") } else { ("file-pre-create", "file-post-create") };
-	if !event(list, owner, pre, &vars, env, Some(exists), trace) {
-		return (false, false);
+	let mut exists_now = exists;
+	for h in list.iter().filter(|h| h.types.iter().any(|t| t == pre)) {
+		trace.push(Inv { owner: owner.to_string(), hook: h.name.clone(), event: pre.to_string(), vars: vars.clone(), env: env.clone(), file_exists: Some(exists_now) });
+		match h.side_effect.as_str() {
+			"touch" => exists_now = true,
+			"remove" => exists_now = false,
+			_ => {}
+		}
+		if h.behaviour != "exit:0" && !h.allow_failure {
+			// not written: the file is whatever the hooks made of it
+			return (false, exists_now);
+		}
 	}
 	let ok = event(list, owner, post, &vars, env, Some(true), trace);
 	(ok, true)
@@ -194,7 +215,7 @@ fn model_attempt(case: &Case, lay: &Layout, st: &mut ModelState, info: &AttemptI
 	let cert_list = {
 		let mut names = vec!["rec-post".to_string()];
 		names.extend(case.cert_hooks.iter().cloned());
-		let mut l = vec![HookG { name: "rec-post".into(), types: vec!["post-operation".into()], allow_failure: false, behaviour: "exit:0".into(), stdin_kind: 0, use_stdout: false, use_stderr: false, sleep_ms: 0 }];
+		let mut l = vec![HookG { name: "rec-post".into(), types: vec!["post-operation".into()], allow_failure: false, behaviour: "exit:0".into(), stdin_kind: 0, use_stdout: false, use_stderr: false, sleep_ms: 0, side_effect: String::new() }];
 		l.extend(hook_list(case, &case.cert_hooks));
 		l
 	};
@@ -220,7 +241,7 @@ fn model_attempt(case: &Case, lay: &Layout, st: &mut ModelState, info: &AttemptI
 		st.registered = true;
 		let name = format!("{}.account.bin", crate::oracle::jwk::b64u(b"a1"));
 		let (ok, written) = file_write(&acct_list, "a1", st.acct_file, &acc_dir, &name, &env_a, trace);
-		st.acct_file |= written;
+		st.acct_file = written;
 		if !ok {
 			account_hook_failed = true;
 			post(false, true, trace);
@@ -249,13 +270,13 @@ fn model_attempt(case: &Case, lay: &Layout, st: &mut ModelState, info: &AttemptI
 		}
 	}
 	let (ok, written) = file_write(&cert_list, "c1", st.key_file, &crt_dir, "c1_ecdsa-p256.pk.pem", &env_c, trace);
-	st.key_file |= written;
+	st.key_file = written;
 	if !ok {
 		post(false, true, trace);
 		return (false, false);
 	}
 	let (ok, written) = file_write(&cert_list, "c1", st.crt_file, &crt_dir, "c1_ecdsa-p256.crt.pem", &env_c, trace);
-	st.crt_file |= written;
+	st.crt_file = written;
 	if !ok {
 		post(false, true, trace);
 		return (false, false);
@@ -275,6 +296,17 @@ fn hook_def(h: &HookG, sock: &str, rec: &str, dir: &str) -> Value {
 	if h.sleep_ms > 0 {
 		args.push("--sleep-ms".into());
 		args.push(h.sleep_ms.to_string());
+	}
+	match h.side_effect.as_str() {
+		"touch" => {
+			args.push("--touch".into());
+			args.push("{{ file_path }}".into());
+		}
+		"remove" => {
+			args.push("--remove".into());
+			args.push("{{ file_path }}".into());
+		}
+		_ => {}
 	}
 	args.push("--".into());
 	for v in VARS {
@@ -363,7 +395,23 @@ fn exec_in(case: &Case, acmed: &std::path::Path, dir: &std::path::Path) -> Outco
 	// the third rec-post record is held: attempts 1 and 2 are then complete
 	let is_recpost = |r: &HookRecord| r.hook_id == "post-operation:c1";
 	coll.hold_when(Box::new(move |r, prev| r.hook_id == "post-operation:c1" && prev.iter().filter(|p| p.hook_id == "post-operation:c1").count() >= 2));
-	let ok = coll.wait_until(&|r| r.iter().filter(|x| is_recpost(x)).count() >= 3, Duration::from_secs(90), &mut || daemon.state() != ProcState::Alive);
+	// ... or the daemon legitimately stops attempting (e.g. a preparation hook left an empty certificate
+	// file behind and a later hook failed: the scheduling pass then backs off): quiet for 2 s after an attempt
+	let mut last_n = 0usize;
+	let mut last_change = std::time::Instant::now();
+	let mut ok = coll.wait_until(&|r| r.iter().filter(|x| is_recpost(x)).count() >= 3, Duration::from_secs(90), &mut || {
+		let n = coll.count(&|_| true);
+		if n != last_n {
+			last_n = n;
+			last_change = std::time::Instant::now();
+		}
+		let posts = coll.count(&|r| r.hook_id == "post-operation:c1" && r.t_end.is_some());
+		daemon.state() != ProcState::Alive || (posts >= 1 && last_change.elapsed() > Duration::from_secs(2))
+	});
+	let attempts_seen = coll.count(&|r| r.hook_id == "post-operation:c1");
+	if !ok && attempts_seen >= 1 && daemon.state() == ProcState::Alive {
+		ok = true;
+	}
 	let run = bb::finish_run(&coll, daemon, if ok { bb::WaitEnd::Reached } else { bb::WaitEnd::Timeout });
 	let snap = ca.snapshot();
 	let d = || format!("cert hooks {:?}, account hooks {:?}, groups {:?}, hooks {:?}\n{}", case.cert_hooks, case.acct_hooks, case.groups, case.hooks.iter().map(|h| format!("{}:{:?}:{}:af={}", h.name, h.types, h.behaviour, h.allow_failure)).collect::<Vec<_>>(), run.stderr_tail);
@@ -376,7 +424,7 @@ fn exec_in(case: &Case, acmed: &std::path::Path, dir: &std::path::Path) -> Outco
 	let mut trace: Vec<Inv> = vec![];
 	let mut compared_attempts = 0;
 	let mut any_fail = false;
-	for k in 0..2 {
+	for k in 0..2usize.min(attempts_seen.max(1)) {
 		let Some(order) = snap.orders.get(k) else {
 			if k == 0 {
 				// no order at all: only legitimate when the account write failed
@@ -521,6 +569,9 @@ fn exec_in(case: &Case, acmed: &std::path::Path, dir: &std::path::Path) -> Outco
 	}
 	if any_fail {
 		classes.push("attempt-failed-by-hook".into());
+	}
+	if trace.iter().any(|i| case.hooks.iter().any(|h| h.name == i.hook && !h.side_effect.is_empty() && h.side_effect != "none")) {
+		classes.push("hook-alters-the-file".into());
 	}
 	Outcome::pass(flat_c.len() >= 3 && has_group && multi && nonzero, classes)
 }
